@@ -141,12 +141,14 @@ def _audit_cases(quick, rng):
                 for ops in _chunkings(c, rng, 1):
                     yield dict(c, ops=ops)
     # B. containers and dtypes of array sources, twins of the generator path
-    for kind in ('i64', 'i16', 'f32', 'ro', 'view', 'list', 'gen', 'cos2'):
-        for pol in (rng.sample(qc.POLICIES, 2) if quick else qc.POLICIES):
-            st = [{'len': rng.choice([0, 1, 3, 5]), 'trials': rng.randint(1, 3), 'kind': kind, 'delays': rng.choice([0, 1, 2])},
+    for kind in ('i64', 'i16', 'f32', 'ro', 'view', 'list', 'gen', 'cos2', 'gate', 'notch'):
+        stateful = kind in ('gate', 'notch')         # sources whose samples depend on the generator's own history
+        for pol in (rng.sample(qc.POLICIES, 4 if stateful else 2) if quick else qc.POLICIES):
+            st = [{'len': rng.choice([6, 9, 12] if stateful else [0, 1, 3, 5]), 'trials': rng.randint(2 if stateful else 1, 3), 'kind': kind,
+                   'delays': rng.choice([0, 1, 2])},
                   {'len': rng.choice([2, 4]), 'trials': rng.randint(1, 2), 'kind': rng.choice(['array', kind]), 'delays': rng.choice([0, 2])}]
             c = base(pol, st)
-            for ops in _chunkings(c, rng, 2):
+            for ops in _chunkings(c, rng, 5 if stateful else 2):
                 yield dict(c, ops=ops)
     # C. kinds of trial counts; a zero count (falsy) is presented once by the FIFO-type queues
     for tk in ('np', 'float', 'npf'):
